@@ -7,10 +7,10 @@
 (* Emit = TRUE each completed behaviour is printed (REPLAY) for lopdf's Content::decode.         *)
 (*                                                                                               *)
 (* Universes (constant Universe):                                                                *)
-(*   adj     one operation, zero or one operand: every operand kind next to every operator        *)
+(*   adj(c)  one operation, zero or one operand: every operand kind next to every operator        *)
 (*   adj2    one operation with two operands: every pair of operand kinds next to each other      *)
 (*   strs    (s) Tj and /s f for every s over the critical alphabet, length <= 2                  *)
-(*   seq2/3  every sequence of 2 / 3 operations from a pool (operator next to the next operand)   *)
+(*   seq2(s)/3  every sequence of 2 / 3 operations from a pool (operator next to the next operand) *)
 (*   inlq/t  inline images: colour spaces (full and abbreviated names) x BPC {1,2,4,8} x small    *)
 (*           W,H, data containing EI, white-space and delimiters                                  *)
 EXTENDS SyntaxProducer, Content, TLC, Json
@@ -39,13 +39,15 @@ I(n) == OInt(FALSE, NatDigits(n))
 BigInt == OInt(FALSE, <<9, 2, 2, 3, 3, 7, 2, 0, 3, 6, 8, 5, 4, 7, 7, 5, 8, 0, 7>>)
 
 \* operands of every direct kind (7.3 without references and streams)
-KindAtoms ==
+ScalarAtoms ==
     {ONull, OBool(TRUE), OBool(FALSE),
      I(0), OInt(TRUE, <<1, 2>>), BigInt,
      OReal(FALSE, <<0>>, <<5>>), OReal(TRUE, <<3>>, <<>>), OReal(FALSE, <<1, 0>>, <<0, 2>>),
      OName(<<>>), OName(<<65>>), OName(<<35, 32>>), OName(OpTj), OName(<<110, 117, 108, 108>>),
-     OStr(<<>>), OStr(<<40>>), OStr(<<65, 13>>), OStr(<<41, 92>>), OStr(OpTj),
-     OArr(<<>>), OArr(<<I(1), I(2)>>), OArr(<<OStr(<<65>>), OInt(TRUE, <<1, 2, 0>>), OStr(<<66>>)>>), OArr(<<OName(<<>>), ONull>>),
+     OStr(<<>>), OStr(<<40>>), OStr(<<65, 13>>), OStr(<<41, 92>>), OStr(OpTj)}
+ContainerAtoms ==
+    {OArr(<<>>), OArr(<<I(1), I(2)>>), OArr(<<OStr(<<65>>), OInt(TRUE, <<1, 2, 0>>), OStr(<<66>>)>>), OArr(<<OName(<<>>), ONull>>),
+     OArr(<<OArr(<<>>), ODict(EmptyMap)>>),
      ODict(EmptyMap), ODict(<<65>> :> I(7)), ODict(<<>> :> OName(<<>>)), ODict(<<75>> :> OArr(<<OBool(TRUE)>>))}
 
 SmallKinds == {ONull, OBool(FALSE), I(7), OReal(FALSE, <<0>>, <<5>>), OName(<<>>), OName(<<65>>), OStr(<<41>>), OArr(<<I(1)>>), ODict(EmptyMap)}
@@ -53,18 +55,19 @@ SmallKinds == {ONull, OBool(FALSE), I(7), OReal(FALSE, <<0>>, <<5>>), OName(<<>>
 Case(ops) == [ops |-> ops, idws |-> 32, free |-> FALSE]
 
 Adj  == {Case(<<Operation(op, <<>>)>>) : op \in Operators}
-        \cup {Case(<<Operation(op, <<a>>)>>) : op \in Operators, a \in KindAtoms}
+        \cup {Case(<<Operation(op, <<a>>)>>) : op \in Operators, a \in ScalarAtoms \cup {OArr(<<>>), ODict(EmptyMap)}}
+AdjC == {Case(<<Operation(op, <<a>>)>>) : op \in Operators, a \in ContainerAtoms}
 Adj2 == {Case(<<Operation(op, <<a, b>>)>>) : op \in {OpTj, OpQuote, OpD0, OpN}, a \in SmallKinds, b \in SmallKinds}
 Strs == {Case(<<Operation(OpTj, <<OStr(s)>>)>>) : s \in Seqs2} \cup {Case(<<Operation(OpF, <<OName(s)>>)>>) : s \in Seqs2}
 
-Pool == {Operation(OpQ, <<>>), Operation(OpN, <<>>), Operation(OpF, <<>>), Operation(OpTstar, <<>>), Operation(OpBT, <<>>),
-         Operation(OpD0, <<I(5), I(0)>>), Operation(OpQuote, <<OStr(<<65>>)>>),
-         Operation(OpDQuote, <<I(1), OReal(FALSE, <<0>>, <<5>>), OStr(<<41>>)>>),
-         Operation(OpTj, <<OStr(<<40, 65>>)>>), Operation(OpTJ, <<OArr(<<OStr(<<65>>), OInt(TRUE, <<7>>)>>)>>),
-         Operation(OpRe, <<I(0), I(0), I(6), I(7)>>), Operation(OpTf, <<OName(<<70, 49>>), I(9)>>),
-         Operation(OpET, <<OName(<<>>)>>), Operation(OpBigQ, <<ODict(<<65>> :> ONull)>>)}
 PoolS == {Operation(OpQ, <<>>), Operation(OpN, <<>>), Operation(OpD0, <<I(5), I(0)>>), Operation(OpQuote, <<OStr(<<65>>)>>),
-          Operation(OpTf, <<OName(<<70, 49>>), I(9)>>), Operation(OpET, <<OName(<<>>)>>), Operation(OpTstar, <<>>)}
+          Operation(OpET, <<OName(<<>>)>>)}
+PoolM == PoolS \cup {Operation(OpTf, <<OName(<<70, 49>>), I(9)>>), Operation(OpTstar, <<>>)}
+Pool == PoolM \cup
+        {Operation(OpF, <<>>), Operation(OpBT, <<>>), Operation(OpDQuote, <<I(1), OReal(FALSE, <<0>>, <<5>>)>>),
+         Operation(OpTj, <<OStr(<<40, 65>>)>>), Operation(OpTJ, <<OArr(<<OInt(TRUE, <<7>>)>>)>>),
+         Operation(OpRe, <<I(1), I(2), I(3)>>), Operation(OpBigQ, <<ODict(<<65>> :> ONull)>>)}
+Seq2S == {Case(<<a, b>>) : a \in PoolM, b \in PoolM}
 Seq2 == {Case(<<a, b>>) : a \in Pool, b \in Pool}
 Seq3 == {Case(<<a, b, c>>) : a \in PoolS, b \in PoolS, c \in PoolS}
 
@@ -90,14 +93,16 @@ InlFree == {InlineCase(CsAll[c], bpc, wh[1], wh[2], pat, abbr, ws, TRUE) :
             c \in 1..6, bpc \in {1, 2, 4, 8}, wh \in {<<1, 1>>, <<3, 2>>, <<2, 3>>, <<3, 3>>}, pat \in 1..3, abbr \in BOOLEAN, ws \in {32, 10, 13, 9}}
 
 Cases == IF Universe = "adj" THEN Adj
+         ELSE IF Universe = "adjc" THEN AdjC
          ELSE IF Universe = "adj2" THEN Adj2
+         ELSE IF Universe = "seq2s" THEN Seq2S
          ELSE IF Universe = "strs" THEN Strs
          ELSE IF Universe = "seq2" THEN Seq2
          ELSE IF Universe = "seq3" THEN Seq3
          ELSE IF Universe = "inlq" THEN InlQ
          ELSE IF Universe = "inlt" THEN InlT
          ELSE IF Universe = "inlfree" THEN InlFree
-         ELSE IF Universe = "mix" THEN Adj \cup Adj2 \cup Seq2 \cup Seq3 \cup InlFree
+         ELSE IF Universe = "mix" THEN Adj \cup AdjC \cup Adj2 \cup Seq2 \cup Seq3 \cup InlFree
          ELSE {}
 
 -----------------------------------------------------------------------------
@@ -108,7 +113,8 @@ InlineItems(o, ws, free) ==
     LET d == o.args[1].v
         keys == SetToSeq(DOMAIN d)
         entry(key) == IF free THEN <<Val(OName(key)), Val(d[key])>>
-                      ELSE <<Tok(<<47>> \o key), IF d[key].k = "int" THEN Tok(DigitBytes(d[key].v)) ELSE Val(d[key])>>
+                      ELSE IF d[key].k = "int" THEN <<Tok(<<47>> \o key \o <<32>> \o DigitBytes(d[key].v))>>
+                      ELSE <<Tok(<<47>> \o key), Val(d[key])>>
     IN <<Tok(KwBI)>> \o Concat([i \in 1..Len(keys) |-> entry(keys[i])]) \o <<Tok(KwID), Raw(<<ws>> \o o.args[1].w), Tok(KwEI)>>
 
 OpItems(o, ws, free) ==
@@ -153,5 +159,5 @@ EmitInv ==
     (Emit /\ fin) => PrintT(<<"REPLAY", ToJson([bytes |-> out, u |-> Universe, nops |-> Len(src.ops),
                                                  opnames |-> [i \in 1..Len(src.ops) |-> src.ops[i].op],
                                                  nargs |-> [i \in 1..Len(src.ops) |-> Len(src.ops[i].args)],
-                                                 inline |-> HasInline(src), idws |-> src.idws])>>)
+                                                 inline |-> HasInline(src), idws |-> src.idws, sep |-> SepMode])>>)
 =============================================================================
